@@ -1,4 +1,5 @@
 import Plotink.Proofs.C19
+import Plotink.Proofs.C19Gen3
 
 /-! # C19 — port discovery picks only EiBotBoards, in enumeration order, and finds by name
 
@@ -202,5 +203,156 @@ theorem C19_layers (ports : List Port) (key : Option Str) :
       have : isInfixB (lower (snrK ++ k)) (lower p.hwid) = false :=
         (isInfixB_false_iff _ _).mpr (h k rfl p hp)
       simp [matchesLB, this]
+
+
+/-! # The same properties about the REGENERATED discovery code
+
+`Gen/ebb_serial_{findPort,listEBBports,list_named_ebbs,find_named_ebb}.lean`, `Gen/EBB3_find_first.lean` and
+`Gen/ebb3_serial_{list_ebb_ports,list_named_ebbs,find_named}.lean` are rewritten from `plotink/ebb_serial.py` /
+`plotink/ebb3_serial.py` on every run (`translator/pyio2lean.py`); `comports()` is the input `w.ext.comports`.
+`Enumerates w ports` says that input is the encoded port list.  The bridges (`Proofs/LegacyGen.lean`,
+`Proofs/C19Gen1-3.lean`) identify each regenerated function with the hand model of its layer, for every fuel, world
+and enumeration; the theorems below restate the property through them.  Values: `encPort p` is the 3-tuple of
+strings, `encOptStr` maps `none ↦ None`. -/
+
+open PyObj Gen LegacyGen C19Gen
+
+/-- **first-board discovery, regenerated code** (both layers).  `findPort` returns, and `EBB3.find_first` stores in
+`self.port_name` (returning `None`, changing nothing else), the first port whose description starts with `EiBotBoard`,
+otherwise the first whose hardware id starts with `USB VID:PID=04D8:FD92`, otherwise `None`
+(`specFirst ports = ((ports.find? descMatch).orElse fun _ => ports.find? idMatch).map (·.dev)`) — of the CURRENT
+enumeration: the statement about the object holds for every prior object state `w3.obj` (fresh object, or one that
+already holds a `port_name` from an earlier discovery). -/
+theorem C19_gen_first (fuel : Nat) (ports : List Port) (w : World NoObj) (w3 : World EBB3_Obj)
+    (hc : Enumerates w ports) (hc3 : Enumerates w3 ports) :
+    ebb_serial_findPort fuel w = .val (encOptStr (specFirst ports)) w ∧
+    EBB3_find_first fuel w3 = .val .none { w3 with obj := { w3.obj with port_name := encOptStr (specFirst ports) } } := by
+  rw [findPort_bridge fuel ports w hc, find_first_bridge fuel ports w3 hc3, (C19_first ports).1, (C19_first ports).2.1]
+  exact ⟨rfl, rfl⟩
+
+/-- the object-state reading spelled out: after `find_first` on ANY object, `port_name` is determined by the current
+enumeration alone; in particular with no board in the list it is `None` even if it held a port before -/
+theorem C19_gen_first_fresh_and_reused (fuel : Nat) (ports : List Port) (w3 : World EBB3_Obj) (hc3 : Enumerates w3 ports)
+    (hnone : ∀ p ∈ ports, descMatch p = false ∧ idMatch p = false) :
+    ∃ w', EBB3_find_first fuel w3 = .val .none w' ∧ w'.obj.port_name = .none := by
+  refine ⟨_, (C19_gen_first fuel ports ⟨NoObj.mk, w3.port, w3.ext⟩ w3 hc3 hc3).2, ?_⟩
+  have h1 : ports.find? descMatch = none := List.find?_eq_none.mpr (fun p hp => by simp [(hnone p hp).1])
+  have h2 : ports.find? idMatch = none := List.find?_eq_none.mpr (fun p hp => by simp [(hnone p hp).2])
+  simp [specFirst, h1, h2, encOptStr]
+
+example : ∀ p ∈ [(⟨"COM9".toList, "Arduino Uno (COM9)".toList, "USB VID:PID=2341:0043".toList⟩ : Port)],
+    descMatch p = false ∧ idMatch p = false := by
+  intro p hp; simp only [List.mem_singleton] at hp; subst hp; decide
+
+/-- **board listing, regenerated code** (both layers): exactly the ports passing either test, in enumeration order,
+`None` when there are none; `list_named_ebbs` returns one name per listed port (the model's `nameOf`), `None` when
+there are none. -/
+theorem C19_gen_list (fuel : Nat) (ports : List Port) (w : World NoObj) (hc : Enumerates w ports) :
+    ebb_serial_listEBBports fuel w = .val (encPorts (specList ports)) w ∧
+    ebb3_serial_list_ebb_ports fuel w = .val (encPorts (specList ports)) w ∧
+    ebb3_serial_list_named_ebbs fuel w = .val (encNames ((specList ports).map (·.map C19.Ebb3.nameOf))) w ∧
+    ebb_serial_list_named_ebbs fuel w = .val (encNames ((specList ports).map (·.map Legacy.nameOf))) w := by
+  rw [ebb_serial_listEBBports_bridge fuel ports w hc, ebb3_serial_list_ebb_ports_bridge fuel ports w hc,
+    list_named_ebbs3_bridge fuel ports w hc, list_named_ebbsL_bridge fuel ports w hc,
+    (C19_list ports).1, (C19_list ports).2.1, (C19_list ports).2.2.1, (C19_list ports).2.2.2]
+  exact ⟨rfl, rfl, rfl, rfl⟩
+
+/-- **membership, regenerated code**: a string returned by a lookup (any key) or by first-board discovery, or stored
+in `port_name`, is the device name of a port of the list. -/
+theorem C19_gen_member (fuel : Nat) (ports : List Port) (key : Option C19.Str) (d : C19.Str) (w w' : World NoObj)
+    (w3 w3' : World EBB3_Obj) (hc : Enumerates w ports) (hc3 : Enumerates w3 ports) :
+    (ebb3_serial_find_named fuel (encOptStr key) w = .val (.str d) w' → ∃ p ∈ ports, p.dev = d) ∧
+    (ebb_serial_find_named_ebb fuel (encOptStr key) w = .val (.str d) w' → ∃ p ∈ ports, p.dev = d) ∧
+    (ebb_serial_findPort fuel w = .val (.str d) w' → ∃ p ∈ ports, p.dev = d) ∧
+    (EBB3_find_first fuel w3 = .val .none w3' → w3'.obj.port_name = .str d → ∃ p ∈ ports, p.dev = d) := by
+  have hm := C19_member ports key d
+  refine ⟨?_, ?_, ?_, ?_⟩
+  · rw [find_named_bridge fuel key ports w hc]
+    intro h
+    simp only [Out.val.injEq] at h
+    exact hm.1 (encOptStr_eq_str h.1)
+  · rw [find_named_ebb_bridge fuel key ports w hc]
+    intro h
+    simp only [Out.val.injEq] at h
+    exact hm.2.1 (encOptStr_eq_str h.1)
+  · rw [findPort_bridge fuel ports w hc]
+    intro h
+    simp only [Out.val.injEq] at h
+    exact hm.2.2.2.1 (encOptStr_eq_str h.1)
+  · rw [find_first_bridge fuel ports w3 hc3]
+    intro h hp
+    simp only [Out.val.injEq, true_and] at h
+    rw [← h] at hp
+    exact hm.2.2.1 (encOptStr_eq_str hp)
+
+/-- **lookup is "first matching port", regenerated code** (both layers) -/
+theorem C19_gen_first_match (fuel : Nat) (ports : List Port) (key d : C19.Str) (w : World NoObj) (hc : Enumerates w ports) :
+    (ebb3_serial_find_named fuel (.str key) w = .val (.str d) w ↔
+      ∃ pre p post, ports = pre ++ p :: post ∧ p.dev = d ∧ Matches3 key p ∧ ∀ q ∈ pre, ¬ Matches3 key q) ∧
+    (ebb3_serial_find_named fuel (.str key) w = .val .none w ↔ ∀ q ∈ ports, ¬ Matches3 key q) ∧
+    (ebb_serial_find_named_ebb fuel (.str key) w = .val (.str d) w ↔
+      ∃ pre p post, ports = pre ++ p :: post ∧ p.dev = d ∧ MatchesL key p ∧ ∀ q ∈ pre, ¬ MatchesL key q) ∧
+    (ebb_serial_find_named_ebb fuel (.str key) w = .val .none w ↔ ∀ q ∈ ports, ¬ MatchesL key q) := by
+  have h3 : ebb3_serial_find_named fuel (.str key) w = _ := find_named_bridge fuel (some key) ports w hc
+  have hL : ebb_serial_find_named_ebb fuel (.str key) w = _ := find_named_ebb_bridge fuel (some key) ports w hc
+  have hm := C19_first_match ports key d
+  have e1 : ∀ o : Option C19.Str, ((Out.val (encOptStr o) w : Out NoObj) = .val (.str d) w) ↔ o = some d := by
+    intro o
+    constructor
+    · intro h; simp only [Out.val.injEq, and_true] at h; exact encOptStr_eq_str h
+    · intro h; rw [h]; rfl
+  have e2 : ∀ o : Option C19.Str, ((Out.val (encOptStr o) w : Out NoObj) = .val .none w) ↔ o = none := by
+    intro o
+    constructor
+    · intro h; simp only [Out.val.injEq, and_true] at h; exact encOptStr_eq_none h
+    · intro h; rw [h]; rfl
+  rw [h3, hL, e1, e2, e1, e2]
+  exact hm
+
+/-- **lookup, regenerated `find_named` (EBB3 layer)**: as `C19_lookup` -/
+theorem C19_gen_lookup (fuel : Nat) (pre post : List Port) (p : Port) (key : C19.Str) (w : World NoObj)
+    (hc : Enumerates w (pre ++ p :: post))
+    (hkey : lower key = lower (C19.Ebb3.nameOf p) ∨ (∃ t, serTag p = some t ∧ lower key = lower t) ∨
+            lower key = lower p.dev)
+    (hpre : ∀ q ∈ pre, ¬ Matches3 key q) :
+    ebb3_serial_find_named fuel (.str key) w = .val (.str p.dev) w := by
+  have h := find_named_bridge fuel (some key) (pre ++ p :: post) w hc
+  rw [C19_lookup pre post p key hkey hpre] at h
+  exact h
+
+/-- **lookup, regenerated `find_named_ebb` (legacy layer)**: as `C19_lookup_legacy` -/
+theorem C19_gen_lookup_legacy (fuel : Nat) (pre post : List Port) (p : Port) (key : C19.Str) (w : World NoObj)
+    (hc : Enumerates w (pre ++ p :: post))
+    (hkey : lower key = lower (Legacy.nameOf p) ∨ (∃ t, serTag p = some t ∧ lower key = lower t) ∨
+            lower key = lower p.dev ∨ (∃ t, snrName p = some t ∧ lower key = lower t))
+    (hpre : ∀ q ∈ pre, ¬ MatchesL key q) :
+    ebb_serial_find_named_ebb fuel (.str key) w = .val (.str p.dev) w := by
+  have h := find_named_ebb_bridge fuel (some key) (pre ++ p :: post) w hc
+  rw [C19_lookup_legacy pre post p key hkey hpre] at h
+  exact h
+
+/-- non-vacuity of `Enumerates`: the world whose enumerator yields the list -/
+example (ports : List Port) : Enumerates (⟨NoObj.mk, ⟨[], [], [], 0⟩, { comports := .ok (.list (ports.map encPort)) }⟩ : World NoObj) ports :=
+  rfl
+
+/-- **the layers agree, regenerated code**: what `findPort` returns is what `find_first` stores; the listings are
+equal; the reported names are equal when no hardware string contains `SNR=`; the lookups are equal when no
+lower-cased hardware string contains `snr=<key>`. -/
+theorem C19_gen_layers (fuel : Nat) (ports : List Port) (key : Option C19.Str) (w : World NoObj) (w3 : World EBB3_Obj)
+    (hc : Enumerates w ports) (hc3 : Enumerates w3 ports) :
+    (∃ v, ebb_serial_findPort fuel w = .val v w ∧
+          EBB3_find_first fuel w3 = .val .none { w3 with obj := { w3.obj with port_name := v } }) ∧
+    ebb_serial_listEBBports fuel w = ebb3_serial_list_ebb_ports fuel w ∧
+    ((∀ p ∈ ports, ¬ snrK <:+: p.hwid) → ebb_serial_list_named_ebbs fuel w = ebb3_serial_list_named_ebbs fuel w) ∧
+    ((∀ k, key = some k → ∀ p ∈ ports, ¬ lower (snrK ++ k) <:+: lower p.hwid) →
+      ebb_serial_find_named_ebb fuel (encOptStr key) w = ebb3_serial_find_named fuel (encOptStr key) w) := by
+  have hl := C19_layers ports key
+  refine ⟨⟨_, findPort_bridge fuel ports w hc, ?_⟩, ?_, ?_, ?_⟩
+  · rw [find_first_bridge fuel ports w3 hc3, hl.1]
+  · rw [ebb_serial_listEBBports_bridge fuel ports w hc, ebb3_serial_list_ebb_ports_bridge fuel ports w hc, hl.2.1]
+  · intro h
+    rw [list_named_ebbsL_bridge fuel ports w hc, list_named_ebbs3_bridge fuel ports w hc, hl.2.2.1 h]
+  · intro h
+    rw [find_named_ebb_bridge fuel key ports w hc, find_named_bridge fuel key ports w hc, hl.2.2.2 h]
 
 end Plotink
